@@ -269,6 +269,115 @@ func (e *env) migrate(body []byte, target uint) (o outcome) {
 	return o
 }
 
+type markerProbe struct {
+	Name    string
+	Body    string
+	Markers []string
+}
+
+func markerProbes() (out []markerProbe) {
+	markers := []string{"198.51.100.1", "198.51.100.2", "203.0.113.9", "203.0.113.10", "192.0.2.53", "10.9.0.1", "aa:bb:cc:00:00:01", "10.9.0.2", "aa:bb:cc:00:00:03", "10.9.0.4", "aa:bb:cc:00:00:04"}
+	for v := 0; v <= 9; v++ {
+		body := fmt.Sprintf("schema_version: %d\n", v) +
+			"dns:\n  upstream_dns:\n  - 198.51.100.1\n  - 198.51.100.2\n  local_ptr_upstreams:\n  - 203.0.113.9\n  - 203.0.113.10\n  bootstrap_dns:\n  - 192.0.2.53\n"
+		if v <= 5 {
+			body += "clients:\n- name: c1\n  ip: 10.9.0.1\n  mac: aa:bb:cc:00:00:01\n- name: c2\n  ip: 10.9.0.2\n  mac: \"\"\n- name: c3\n  ip: \"\"\n  mac: aa:bb:cc:00:00:03\n- name: c4\n  ip: 10.9.0.4\n  mac: aa:bb:cc:00:00:04\n"
+		} else {
+			body += "clients:\n- name: c1\n  ids:\n  - 10.9.0.1\n  - aa:bb:cc:00:00:01\n- name: c2\n  ids:\n  - 10.9.0.2\n- name: c3\n  ids:\n  - aa:bb:cc:00:00:03\n- name: c4\n  ids:\n  - 10.9.0.4\n  - aa:bb:cc:00:00:04\n"
+		}
+		out = append(out, markerProbe{Name: fmt.Sprintf("markers/v%d", v), Body: body, Markers: markers})
+	}
+	return out
+}
+
+// countScalars counts how often each string occurs as a scalar in v.
+func countScalars(v any, into map[string]int) {
+	switch x := v.(type) {
+	case map[string]any:
+		for _, e := range x {
+			countScalars(e, into)
+		}
+	case []any:
+		for _, e := range x {
+			countScalars(e, into)
+		}
+	case string:
+		into[x]++
+	}
+}
+
+func (e *env) checkMarkers(pd markerProbe) {
+	c := e.c
+	c.Count("evals", 1)
+	c.Count("marker_probes", 1)
+	c.Distinct("nontrivial", pd.Name)
+	cs := caseC{Base: pd.Name, Body: pd.Body}
+	o := e.migrate([]byte(pd.Body), last)
+	if o.panicked != "" {
+		c.Violation("panic:"+panicSite(o.panicked), fmt.Sprintf("Migrate panics on %s:\n%s", pd.Name, firstLines(o.panicked, 14)), cs)
+		return
+	}
+	if o.err != nil {
+		c.Violation("marker-probe-rejected:"+pd.Name, fmt.Sprintf("a plain document of schema version with lists and clients is rejected: %v\n%s", o.err, pd.Body), cs)
+		return
+	}
+	in, _ := parseAny([]byte(pd.Body))
+	out, err := parseAny(o.body)
+	if err != nil {
+		c.Violation("marker-probe-unparsable:"+pd.Name, err.Error(), cs)
+		return
+	}
+	ci, co := map[string]int{}, map[string]int{}
+	countScalars(in, ci)
+	countScalars(out, co)
+	// Step 6 copies a client's ip and mac into its new ids list and keeps the
+	// old fields: every client entry must list exactly its own two values.
+	var walk func(v any) string
+	walk = func(v any) string {
+		switch x := v.(type) {
+		case map[string]any:
+			_, hasIP := x["ip"]
+			_, hasMAC := x["mac"]
+			if ids, ok := x["ids"].([]any); ok && (hasIP || hasMAC) {
+				var want []any
+				for _, k := range []string{"ip", "mac"} {
+					if sv, _ := x[k].(string); sv != "" {
+						want = append(want, sv)
+					}
+				}
+				if fmt.Sprint(ids) != fmt.Sprint(want) {
+					return fmt.Sprintf("client %v: ids %v, but ip/mac of the same entry are %v", x["name"], ids, want)
+				}
+				delete(x, "ids") // counted through ip/mac below
+			}
+			for _, e := range x {
+				if m := walk(e); m != "" {
+					return m
+				}
+			}
+		case []any:
+			for _, e := range x {
+				if m := walk(e); m != "" {
+					return m
+				}
+			}
+		}
+		return ""
+	}
+	if m := walk(out); m != "" {
+		c.Violation("setting-not-preserved:client-ids:"+pd.Name, fmt.Sprintf("%s\ninput:\n%s\nupgraded:\n%s", m, pd.Body, o.body), cs)
+		return
+	}
+	co = map[string]int{}
+	countScalars(out, co)
+	for _, m := range pd.Markers {
+		if ci[m] != co[m] {
+			c.Violation("setting-not-preserved:"+pd.Name, fmt.Sprintf("the value %q occurs %d time(s) in the input and %d time(s) in the upgraded document (values of list settings and client identifiers must be carried over as they are)\ninput:\n%s\nupgraded:\n%s", m, ci[m], co[m], pd.Body, o.body), cs)
+			return
+		}
+	}
+}
+
 func parseAny(b []byte) (any, error) {
 	var v any
 	err := yaml.Unmarshal(b, &v)
@@ -517,6 +626,15 @@ func run(c *lib.Ctx) {
 		}
 		idx++
 	}
+	// Value-preservation probes: documents whose list-valued settings and
+	// per-client identifiers carry distinct marker values; every marker must
+	// occur in the upgraded document exactly as often as in the input.
+	for _, pd := range markerProbes() {
+		if c.Mine(idx) {
+			e.checkMarkers(pd)
+		}
+		idx++
+	}
 	// Raw documents that are not (non-empty) mappings.
 	for _, raw := range []string{"", "\n", "# only a comment\n", "---\n", "---", "null\n", "~\n", "[]\n", "- schema_version: 1\n", "3\n", "text\n", "{}\n",
 		"schema_version: null\n", "schema_version: -1\n", "schema_version: 30\n", "schema_version: 1.5\n", "schema_version: \"3\"\n", "schema_version: 99999999999999999999\n",
@@ -720,6 +838,11 @@ func replay(c *lib.Ctx, raw json.RawMessage) string {
 			e.checkCase(&bases[i], cs.Devs, true)
 		}
 	}
+	for _, pd := range markerProbes() {
+		if pd.Name == cs.Base {
+			e.checkMarkers(pd)
+		}
+	}
 	if c.NumViolationKeys() > 0 {
 		return "violation reproduced for document:\n" + cs.Body
 	}
@@ -740,7 +863,7 @@ func main() {
 			return map[string]any{
 				"evaluations":         m.Counters["evals"],
 				"distinct_nontrivial": m.Distinct["nontrivial"],
-				"rule": "base documents (golden test inputs of every version + a minimal document per version) with 0, 1 (and in thorough 2) deviations: a key path (every path present in the document, plus every string literal of later migration steps placed under the root and each top-level object) replaced by one of 9 shapes; each document migrated in one run and via every split point k; distinct_nontrivial = distinct (base, path, shape) documents",
+				"rule": "10 value-preservation probes (schema 0..9: list settings and four clients carry distinct marker values that must occur in the upgraded document exactly as often as in the input); base documents (golden test inputs of every version + a minimal document per version) with 0, 1 (and in thorough 2) deviations: a key path (every path present in the document, plus every string literal of later migration steps placed under the root and each top-level object) replaced by one of 9 shapes; each document migrated in one run and via every split point k; distinct_nontrivial = distinct (base, path, shape) documents",
 				"migrations":          m.Counters["migrations"],
 				"split_runs":          m.Counters["split_runs"],
 				"accepted":            m.Counters["accepted"],
